@@ -665,7 +665,13 @@ func (db *DB) rollbackJournal(ctx context.Context) error {
 	defer func() { _ = journalFile.Close() }()
 
 	dbFile, err := db.os.OpenFile("ROLLBACKJOURNALDB", db.DatabasePath(), os.O_RDWR, 0o666)
-	if err != nil {
+	if os.IsNotExist(err) {
+		// The database file is gone but its journal is not: the process died
+		// inside Drop() after deleting the former and before deleting the
+		// latter. There is nothing to roll back. The deletion LTX file is
+		// applied again after recovery and removes the remaining files.
+		return nil
+	} else if err != nil {
 		return err
 	}
 	defer func() { _ = dbFile.Close() }()
